@@ -129,9 +129,38 @@ func ruleC03(p *Prog, r *Result) {
 	done := selectPaths(pd.paths, func(pa *Path) bool {
 		return guardPol(pa, "itermore", mOp("range", docs), nil) == -1 && pa.End == "return"
 	})
+	// the names collected over the documents of the file only ever grow: what an earlier document named is
+	// still there after a later document has been looked at (string or list form alike)
+	acc := -1
+	for _, pa := range done {
+		for _, e := range pa.Effects {
+			if e.Callee == "bkl.(*file).toAbsolutePaths" && len(e.Args) == 2 && e.Args[1].Op == "carried" {
+				acc = e.Args[1].N
+			}
+		}
+	}
+	if acc < 0 {
+		r.Undecided("C03.directive", "bkl.(*file).parentsFromDirective / accumulator of named parents", pd.pos(), "the list handed to toAbsolutePaths is not a loop-carried accumulator")
+	} else {
+		pd.all("names given by different documents of one file accumulate", iter, "each document appends to the names collected so far", func(pa *Path) (bool, string) {
+			for id, v := range pa.Carried {
+				if id != acc {
+					continue
+				}
+				if v.Op == "carried" && v.N == acc {
+					continue
+				}
+				if v.Op == "append" && len(v.Args) == 2 && v.Args[0].Op == "carried" && v.Args[0].N == acc {
+					continue
+				}
+				return false, "the names collected from earlier documents are replaced, not extended (" + truncate(v.String(), 70) + "): a layer named by an earlier document of the file is silently skipped"
+			}
+			return true, ""
+		})
+	}
 	noParent := func(pa *Path) int {
 		for _, g := range pa.Guards {
-			if g.Kind == "truth" && g.A.Op == "carried" && g.A.Name == "noParent" {
+			if g.Kind == "truth" && g.A.Op == "carried" && raisedFlag(pd, g.A) {
 				if g.Neg {
 					return -1
 				}
@@ -313,4 +342,18 @@ func ruleC03Strip(p *Prog, r *Result) {
 		}
 		return false, "with -P the $parent key stays in the data and evaluation fails with '$parent: invalid directive' (or the directive leaks into the output)"
 	})
+}
+
+// raisedFlag: a loop-carried boolean that starts false and is only ever set to true.
+func raisedFlag(pr *psRule, t *T) bool {
+	info, ok := pr.carried[t.N]
+	if !ok || info.Init == nil || !info.Init.IsConst("false") || len(info.Src) == 0 {
+		return false
+	}
+	for _, s := range info.Src {
+		if !(s.IsConst("true") || (s.Op == "carried" && s.N == t.N)) {
+			return false
+		}
+	}
+	return true
 }
